@@ -14,7 +14,6 @@ Variable sB : state.
 Hypothesis Hrk : forall n e d, alookup p n = Some e -> In d (expr_reads e) -> (rk d < rk n)%nat.
 Hypothesis Hproj : forall n e d, alookup p n = Some e -> nkind n = KProjection -> In d (expr_reads e) ->
   is_fw_or_proj (nkind d) = true.
-Hypothesis Htgt : forall n e d, alookup p n = Some e -> In d (expr_reads e) -> nkind d <> KExternal.
 Hypothesis Hkeys : forall n e, alookup p n = Some e -> is_mexec_kind (nkind n) = true.
 
 Notation mquery := (query_for p None).
@@ -69,7 +68,7 @@ Proof.
   destruct (mmono_all p f) as (Mq & Mx & Me & Mr & Mb).
   assert (Hbin : forall inp X stk n pd prev a b op fr s o fr' ms s',
             MInv p rk sB X inp s ->
-            (forall d, In d (expr_reads a ++ expr_reads b) -> StkOk rk stk d /\ (rk d < rk n)%nat /\ nkind d <> KExternal) ->
+            (forall d, In d (expr_reads a ++ expr_reads b) -> StkOk rk stk d /\ (rk d < rk n)%nat) ->
             MFrOk rk s n fr -> (pd = true \/ MPrevOK s prev) -> (pd = true \/ X = []) ->
             mbin p f stk (CQuery n true pd prev) a b op fr s = Ok (o, fr', ms, s') ->
             MInv p rk sB X inp s' /\ MKeeps s s' /\ ms = [] /\ MFrOk rk s' n fr' /\
@@ -93,19 +92,19 @@ Proof.
     - eapply evr_mono; [exact Hev1|]. intros d x0 _ Hx0. apply Hsub2. exact Hx0.
     - intro d. rewrite Hk2, Hk1, in_app_iff. tauto. }
   assert (Hread : forall inp X stk n pd prev n0 fr s x fr1 m1 s1,
-            MInv p rk sB X inp s -> StkOk rk stk n0 -> (rk n0 < rk n)%nat -> nkind n0 <> KExternal ->
+            MInv p rk sB X inp s -> StkOk rk stk n0 -> (rk n0 < rk n)%nat ->
             MFrOk rk s n fr -> (pd = true \/ MPrevOK s prev) -> (pd = true \/ X = []) ->
             mread p f stk (CQuery n true pd prev) n0 fr s = Ok (x, fr1, m1, s1) ->
             MInv p rk sB X inp s1 /\ MKeeps s s1 /\ m1 = [] /\ MonoR stk s s1 /\
             exists i, x = EVal (i_value i) /\ fr1 = fr_obs_reg fr n0 i /\ MFrOk rk s1 n fr1 /\
               (forall d y, frR fr d y -> frR fr1 d y) /\ frR fr1 n0 (i_value i)).
-  { intros inp X stk n pd prev n0 fr s x fr1 m1 s1 HI Hs0 Hr0 Hk0 Hfr Hpd Hpx H. unfold mread in H.
+  { intros inp X stk n pd prev n0 fr s x fr1 m1 s1 HI Hs0 Hr0 Hfr Hpd Hpx H. unfold mread in H.
     destruct (mquery f stk (CQuery n true pd prev) (Some fr) n0 s) as [[[[o1 fr2] m2] s2]| | |] eqn:E1; try discriminate.
     assert (Hpre : MFrPre rk (CQuery n true pd prev) (Some fr) n0 s).
     { split; [exact Hr0|]. exists fr. auto. }
     assert (HIa : MInv p rk sB (X ++ []) inp s) by (rewrite app_nil_r; exact HI).
     destruct (IHq inp X [] stk (CQuery n true pd prev) (Some fr) n0 s o1 fr2 m2 s2 HIa Hs0 (fun K => ltac:(discriminate K))
-                Hk0 Hpd Hpre Hpx (or_introl eq_refl) E1) as (HI1 & K1 & -> & i & Hi & Hv & Ho & Hf).
+                Hpd Hpre Hpx (or_introl eq_refl) E1) as (HI1 & K1 & -> & i & Hi & Hv & Ho & Hf).
     specialize (K1 eq_refl).
     pose proof (Mq _ _ _ _ _ _ _ _ _ E1) as M1.
     specialize (Hf fr (or_introl eq_refl)). subst o1 fr2. cbv zeta in H.
@@ -117,7 +116,7 @@ Proof.
     - exists (i_tfc i). rewrite fr_obs_reg_lookup, node_eqb_refl. reflexivity. }
   assert (Hgrp : forall inp X stk n pd prev ns acc fr s x fr1 m1 s1,
             MInv p rk sB X inp s ->
-            (forall d, In d ns -> StkOk rk stk d /\ (rk d < rk n)%nat /\ nkind d <> KExternal) ->
+            (forall d, In d ns -> StkOk rk stk d /\ (rk d < rk n)%nat) ->
             MFrOk rk s n fr -> (pd = true \/ MPrevOK s prev) -> (pd = true \/ X = []) ->
             mgroup p f stk (CQuery n true pd prev) ns acc fr [] s = Ok (x, fr1, m1, s1) ->
             MInv p rk sB X inp s1 /\ MKeeps s s1 /\ m1 = [] /\ MFrOk rk s1 n fr1 /\
@@ -128,8 +127,8 @@ Proof.
     - injection H as <- <- <- <-. split; [exact HI|]. split; [apply MKeeps_refl|]. split; [reflexivity|]. split; [exact Hfr|].
       split; [auto|]. exists 0, []. split; [f_equal; lia|]. split; [constructor|]. intro d. cbn [In]. tauto.
     - destruct (mread p f stk (CQuery n true pd prev) n0 fr s) as [[[[x0 fr2] m2] s2]| | |] eqn:E1; try discriminate.
-      destruct (Hstk n0 (or_introl eq_refl)) as (Hs0 & Hr0 & Hk0).
-      destruct (Hread _ _ _ _ _ _ _ _ _ _ _ _ _ HI Hs0 Hr0 Hk0 Hfr Hpd Hpx E1) as (HI1 & K1 & -> & M1 & i & -> & -> & Hfr2 & Hsub1 & Hn0).
+      destruct (Hstk n0 (or_introl eq_refl)) as (Hs0 & Hr0).
+      destruct (Hread _ _ _ _ _ _ _ _ _ _ _ _ _ HI Hs0 Hr0 Hfr Hpd Hpx E1) as (HI1 & K1 & -> & M1 & i & -> & -> & Hfr2 & Hsub1 & Hn0).
       cbn [app] in H.
       assert (Hpd1 : pd = true \/ MPrevOK s2 prev).
       { destruct Hpd as [Hpd|Hpd]; [left; exact Hpd|right; eapply MPrevOK_mono; eauto]. }
@@ -145,8 +144,8 @@ Proof.
   - injection H as <- <- <- <-. split; [exact HI|]. split; [apply MKeeps_refl|]. split; [reflexivity|].
     split; [exact Hfr|]. split; [auto|]. exists z, []. split; [reflexivity|]. split; [constructor|].
     intro d. cbn [In]. tauto.
-  - destruct (Hstk n0 (or_introl eq_refl)) as (Hs0 & Hr0 & Hk0).
-    destruct (Hread _ _ _ _ _ _ _ _ _ _ _ _ _ HI Hs0 Hr0 Hk0 Hfr Hpd Hpx H) as (HI1 & K1 & -> & M1 & i & -> & -> & Hfr2 & Hsub1 & Hn0).
+  - destruct (Hstk n0 (or_introl eq_refl)) as (Hs0 & Hr0).
+    destruct (Hread _ _ _ _ _ _ _ _ _ _ _ _ _ HI Hs0 Hr0 Hfr Hpd Hpx H) as (HI1 & K1 & -> & M1 & i & -> & -> & Hfr2 & Hsub1 & Hn0).
     split; [exact HI1|]. split; [exact K1|]. split; [reflexivity|]. split; [exact Hfr2|]. split; [exact Hsub1|].
     exists (i_value i), [n0]. split; [reflexivity|]. split; [constructor; exact Hn0|].
     intro d. rewrite (fr_obs_reg_keys_In rk). cbn [In]. intuition.
@@ -173,7 +172,7 @@ Proof.
     assert (Hpd1 : pd = true \/ MPrevOK s1 prev).
     { destruct Hpd as [Hpd|Hpd]; [left; exact Hpd|right; eapply MPrevOK_mono; eauto]. }
     assert (Hstk2 : forall d, In d (expr_reads (if xv =? 0 then e3 else e2)) ->
-              StkOk rk stk d /\ (rk d < rk n)%nat /\ nkind d <> KExternal).
+              StkOk rk stk d /\ (rk d < rk n)%nat).
     { intros d Hd. apply Hstk. apply in_or_app. right. apply in_or_app. destruct (xv =? 0); auto. }
     destruct (meval f stk (CQuery n true pd prev) (if xv =? 0 then e3 else e2) fr1 s1)
       as [[[[y fr2] m2] s2]| | |] eqn:E2; try discriminate.
@@ -222,12 +221,10 @@ Proof.
     injection H as <- <-.
     assert (Hfe : FrEmpty (fr_clear fr1)).
     { unfold FrEmpty, fr_clear. cbn. auto. }
-    assert (Hkx : nkind n <> KExternal).
-    { destruct (mstored_kind _ _ _ _ _ _ _ _ _ HI Eg) as [Kc|[Kc|[Kc|Kc]]]; rewrite Kc; discriminate. }
     assert (Hpx : x_pedantic c = true \/ X = []) by (destruct Hnp as [Hp|[Hp _]]; auto).
     assert (Hnp1 : x_pedantic c = true \/ TfcOK s1 n).
     { destruct Hnp as [Hp|[_ Hp]]; [left; exact Hp|right; eapply TfcOK_mono; eauto]. }
-    destruct (IHx inp X stk c n true (fr_clear fr1) s1 m2 s2 HI1 Hstk Hroot Hkx Hfe Hnv1 Hpx
+    destruct (IHx inp X stk c n true (fr_clear fr1) s1 m2 s2 HI1 Hstk Hroot Hfe Hnv1 Hpx
                 (or_introl (conj eq_refl (conj Hd Hnp1))) Ex) as (P2 & K2 & ->).
     split; [exact P2|]. split; [|reflexivity].
     eapply MKeeps_trans; [exact HI|exact (MonoR_weaken _ _ _ _ M1)|exact K1|exact K2].
@@ -331,7 +328,7 @@ Proof.
   { unfold old_fwd in Hx. destruct (get_info s x) as [ix|]; [eauto|destruct Hx]. }
   destruct Hxs as [ix Hix].
   destruct (mstored_kind _ _ _ _ _ _ _ _ _ HI Hix) as [K|[K|[K|K]]].
-  - rewrite (minput_no_fwd _ _ _ _ _ _ _ _ HI K) in Hx. destruct Hx.
+  - rewrite (mleaf_no_fwd _ _ _ _ _ _ _ _ HI K) in Hx. destruct Hx.
   - exfalso. destruct (tpath_last _ _ _ Hp) as [->|[z0 (_ & _ & Kt)]]; [apply Hb; exact K|apply Kt; exact K].
   - eapply B; eauto. unfold nonfw. rewrite K. reflexivity.
   - assert (Hxc : In x (callers_of s n)) by (apply (mi_bwd _ _ _ _ _ _ _ HI); exact Hx).
@@ -370,17 +367,11 @@ Qed.
 Lemma msound_execute_step : forall f, msound_eval p rk sB f -> msound_execute p rk sB (S f).
 Proof.
   intros f IHe. destruct (mmono_all p f) as (Mq & Mx & Me & Mr & Mb).
-  red. intros inp X stk c n rc fr0 s ms s' HI Hstk Hroot Hkx Hfr0 Hnv Hpx Hrc H.
+  red. intros inp X stk c n rc fr0 s ms s' HI Hstk Hroot Hfr0 Hnv Hpx Hrc H.
   rewrite execute_S in H. cbv zeta in H.
   match type of H with context [match ?X with Ok _ => _ | OutOfFuel => OutOfFuel | Panic c => Panic c | Stuck => Stuck end] =>
     destruct X as [[[[out fr1] marks] s1]| | |] eqn:Ee; try discriminate end.
   set (s0 := set_log s (n :: s_log s)) in *.
-  assert (Hb : exists e, alookup p n = Some e /\
-            meval f (n :: stk) (CQuery n true (x_pedantic c) (fx_prev s n)) e fr0 s0 = Ok (out, fr1, marks, s1)).
-  { unfold body in Ee. destruct (nkind n); try discriminate; try contradiction;
-      (destruct (alookup p n) as [e|]; [|discriminate]); exists e; auto. }
-  destruct Hb as [e (He & Hev0)]. clear Ee.
-  pose proof (Hkeys n e He) as Hk.
   assert (HJn : JustAt p sB inp n).
   { destruct (mi_U _ _ _ _ _ _ _ HI n) as [K|K]; [contradiction|].
     destruct Hrc as [(_ & (cal & i & ci & v & t & A & B & C & D & Sc & E) & _)|[_ Hn]].
@@ -392,8 +383,6 @@ Proof.
       eapply MSpecI_det; eauto.
     - left. congruence. }
   assert (HI0 : MInv p rk sB X inp s0) by (apply MInv_log_push; assumption).
-  assert (Hreads : forall d, In d (expr_reads e) -> StkOk rk (n :: stk) d /\ (rk d < rk n)%nat /\ nkind d <> KExternal).
-  { intros d Hd. pose proof (Hrk _ _ _ He Hd). split; [apply StkOk_lower; assumption|]. split; [assumption|]. eapply Htgt; eauto. }
   destruct Hfr0 as (F1 & F2 & F3 & F4 & F5).
   assert (Hfr : MFrOk rk s0 n fr0).
   { split; auto.
@@ -415,11 +404,35 @@ Proof.
         * intros K F HF. apply (HT i Hi). apply T2; assumption.
       + unfold fx_prev in Hd. rewrite Hi in Hd. discriminate.
     - right. intros d t Hd. unfold fx_prev in Hd. rewrite Hn in Hd. discriminate. }
-  destruct (IHe inp X (n :: stk) n (x_pedantic c) (fx_prev s n) e fr0 s0 out fr1 marks s1 HI0 Hreads Hfr Hpd Hpx Hev0)
-    as (HI1 & K01 & -> & Hfr1 & _ & z & l & -> & Hev & Hkl0).
-  assert (Hkl : forall d, In d (map fst (fr_callees fr1)) <-> In d l).
-  { intro d. rewrite Hkl0, F1. cbn [map In]. tauto. }
-  pose proof (Me _ _ _ _ _ _ _ _ _ Hev0) as M01.
+  (* the executor: the world's answer for an external input, the evaluation of the body otherwise *)
+  assert (Hexec : exists z, out = EVal z /\ marks = [] /\ MInv p rk sB X inp s1 /\ MKeeps s0 s1 /\
+                    MFrOk rk s1 n fr1 /\ MonoR (n :: stk) s0 s1 /\ NewKind p inp n z fr1).
+  { destruct (kind_eqb (nkind n) KExternal) eqn:Kx.
+    - apply kind_eqb_eq in Kx. rewrite Kx in Ee. inversion Ee. subst out fr1 marks s1. clear Ee.
+      exists (world_get s0 (nidx n)). split; [reflexivity|]. split; [reflexivity|]. split; [exact HI0|].
+      split; [apply MKeeps_refl|]. split; [exact Hfr|]. split; [apply MonoR_refl|]. left.
+      split; [exact Kx|]. split; [exact F2|]. split; [exact F1|]. split; [exact F3|].
+      assert (En : n = ext_node (nidx n)) by (destruct n as [k i0]; cbn in Kx; subst k; reflexivity).
+      apply (mi_W _ _ _ _ _ _ _ HI0). rewrite <- En.
+      destruct Hrc as [(_ & (cal & i & ci & v & t & A & B & _) & _)|[_ Hn]]; [|exact Hn]. exfalso.
+      destruct (mi_kind _ _ _ _ _ _ _ HI n i A) as [(_ & Kf & _)|(K2 & _)]; [rewrite Kf in B; destruct B|].
+      rewrite Kx in K2. discriminate.
+    - assert (Hb : exists e, alookup p n = Some e /\
+                meval f (n :: stk) (CQuery n true (x_pedantic c) (fx_prev s n)) e fr0 s0 = Ok (out, fr1, marks, s1)).
+      { unfold body in Ee. destruct (nkind n); try discriminate;
+          (destruct (alookup p n) as [e|]; [|discriminate]); exists e; auto. }
+      destruct Hb as [e (He & Hev0)]. clear Ee.
+      pose proof (Hkeys n e He) as Hk.
+      assert (Hreads : forall d, In d (expr_reads e) -> StkOk rk (n :: stk) d /\ (rk d < rk n)%nat).
+      { intros d Hd. pose proof (Hrk _ _ _ He Hd). split; [apply StkOk_lower; assumption|assumption]. }
+      destruct (IHe inp X (n :: stk) n (x_pedantic c) (fx_prev s n) e fr0 s0 out fr1 marks s1 HI0 Hreads Hfr Hpd Hpx Hev0)
+        as (HI1 & K01 & -> & Hfr1 & _ & z & l & -> & Hev & Hkl0).
+      assert (Hkl : forall d, In d (map fst (fr_callees fr1)) <-> In d l).
+      { intro d. rewrite Hkl0, F1. cbn [map In]. tauto. }
+      pose proof (Me _ _ _ _ _ _ _ _ _ Hev0) as M01.
+      exists z. split; [reflexivity|]. split; [reflexivity|]. split; [exact HI1|]. split; [exact K01|].
+      split; [exact Hfr1|]. split; [exact M01|]. right. split; [exact Hk|]. exists e, l. auto. }
+  destruct Hexec as (z & -> & -> & HI1 & K01 & Hfr1 & M01 & Hnk). clear Ee.
   cbn [nmem existsb] in H.
   assert (Ev : fx_value n (EVal z) fr1 = z) by (unfold fx_value; rewrite (mo_scc _ _ _ _ Hfr1); reflexivity).
   rewrite Ev in H. clear Ev.
@@ -520,7 +533,7 @@ Proof.
   injection H as E1 E2. subst ms s'.
   assert (Hlogn : In n (s_log s2)).
   { rewrite N3. destruct (mr_log _ _ _ M01) as [new [L _]]. rewrite L. apply in_or_app. right. left. reflexivity. }
-  destruct (MInv_set_computed p rk sB Hrk Hproj Ex X Y inp s2 n e l z fr1 chg rc HI2 HEx Hk He Hev Hkl Hfr2 Hnv2 Hlogn Hrc2)
+  destruct (MInv_set_computed p rk sB Hrk Hproj Ex X Y inp s2 n z fr1 chg rc HI2 HEx Hnk Hfr2 Hnv2 Hlogn Hrc2)
     as [HI3 K23].
   - intros Hst K. exfalso. destruct HnS2 as [K0|K0]; contradiction.
   - exact Hdirt.
@@ -547,7 +560,7 @@ Lemma msound_query_step : forall f,
   msound_query p rk sB (S f).
 Proof.
   intros f IHq IHx IHr IHb. destruct (mmono_all p f) as (Mq & Mx & Me & Mr & Mb).
-  red. intros inp X Y stk c fr n s o fr' ms s' HI Hstk Hroot Hkx Hnp Hpre Hxm HY H.
+  red. intros inp X Y stk c fr n s o fr' ms s' HI Hstk Hroot Hnp Hpre Hxm HY H.
   rewrite query_for_S in H. cbv zeta in H.
   rewrite mq_reg_caller in H.
   destruct (mq_reg c fr n) as [fr1| | |] eqn:Er; try discriminate.
@@ -600,7 +613,7 @@ Proof.
       { destruct HY as [K|(_ & K & _)]; [exact K|]. exfalso. destruct Hsp as [j (J1 & J2)]. destruct K as [j' [K1 K2]].
         assert (j' = j) by congruence. subst. contradiction. }
       subst X Y stk. cbn [app] in *.
-      destruct (msound_tfc p rk sB f inp IHq _ _ _ HI (fun t Ht0 => ltac:(rewrite (mi_tfc_fw _ _ _ _ _ _ _ HI n i t Hi Ht0); discriminate)) Ht)
+      destruct (msound_tfc p rk sB f inp IHq _ _ _ HI Ht)
         as (A & C).
       assert (M : MonoR [] s s1) by (eapply mmono_tfc; eauto).
       split; [exact A|]. split.
@@ -645,7 +658,7 @@ Proof.
       - assert (Hpx : x_pedantic c' = true \/ X = []).
         { destruct (Hnp1 Hne) as [K|[K|[[K _]|[K _]]]]; auto. destruct K as [j [K _]]. congruence. }
         assert (Hnv : ~ sverified s1 n) by (intros [j [J1 _]]; congruence).
-        destruct (IHx inp X stk c' n false empty_frame s1 marks s2 HI1 Hstk Hroot' Hkx) as ((Y2 & A1 & A2 & A3 & A4 & A5) & B & ->); auto.
+        destruct (IHx inp X stk c' n false empty_frame s1 marks s2 HI1 Hstk Hroot') as ((Y2 & A1 & A2 & A3 & A4 & A5) & B & ->); auto.
         { repeat split. }
         exists Y2. split; [exact A1|]. split; [rewrite <- Hfo'; exact A2|]. split; [exact A3|]. split; [exact A4|].
         split; [exact A5|]. split; [reflexivity|]. split; [|intros _; exact B].
@@ -692,7 +705,7 @@ Proof.
     assert (HY2 : QPreS c' n Y2 s2).
     { unfold QPreS. rewrite Hfo'. destruct HY2p as [K|K]; [left; exact K|].
       destruct (c_follow c) eqn:Efo; [right; auto|left; auto]. }
-    destruct (IHq inp X Y2 stk c' (fq_reg c fr n) n s2 o3 fr3 m3 s3 HI2 Hstk Hroot' Hkx Hnp2 Hpre2 Hxm' HY2 Eq)
+    destruct (IHq inp X Y2 stk c' (fq_reg c fr n) n s2 o3 fr3 m3 s3 HI2 Hstk Hroot' Hnp2 Hpre2 Hxm' HY2 Eq)
       as (HI3 & K3 & -> & i & Hi & Hv & HP).
     assert (M3 : MonoR stk s2 s3) by (eapply Mq; eauto).
     split; [exact HI3|]. split.
